@@ -11,10 +11,31 @@ Representation (part of the trusted base, see DESIGN.md 12.9):
 -/
 namespace XmppVerif.GoRT
 
-/-- result of one iteration of a loop body: `return v` or the new values of the assigned variables -/
+/-- result of one iteration of a loop body: `return v`, the new values of the assigned variables, or `break` -/
 inductive Step (ρ σ : Type) where
   | ret (v : ρ)
   | next (s : σ)
+  | brk (s : σ)
+
+/-- result of a whole loop: `return v` from inside, or the final values of the assigned variables -/
+inductive Done (ρ σ : Type) where
+  | ret (v : ρ)
+  | fin (s : σ)
+
+/-- `error`: nil, an ordinary error, or a `ConnError` with its `Permanent` flag (messages are not modelled) -/
+inductive Err where
+  | none
+  | plain
+  | conn (permanent : Bool)
+  deriving DecidableEq, Repr, Inhabited
+
+def Err.isErr : Err → Bool
+  | .none => false
+  | _ => true
+
+@[simp] theorem Err.isErr_none : Err.none.isErr = false := rfl
+@[simp] theorem Err.isErr_plain : Err.plain.isErr = true := rfl
+@[simp] theorem Err.isErr_conn (p : Bool) : (Err.conn p).isErr = true := rfl
 
 def len {α : Type} (xs : List α) : Int := (xs.length : Int)
 
@@ -25,27 +46,41 @@ def sliceFrom {α : Type} (xs : List α) (lo : Int) : List α := xs.drop lo.toNa
 
 def slice {α : Type} (xs : List α) (lo hi : Int) : List α := (xs.take hi.toNat).drop lo.toNat
 
-def forEachAux {α ρ σ : Type} (f : Int → α → σ → Step ρ σ) : Int → List α → σ → Step ρ σ
-  | _, [], s => .next s
+def forEachAux {α ρ σ : Type} (f : Int → α → σ → Step ρ σ) : Int → List α → σ → Done ρ σ
+  | _, [], s => .fin s
   | i, x :: xs, s =>
     match f i x s with
     | .ret v => .ret v
+    | .brk s' => .fin s'
     | .next s' => forEachAux f (i + 1) xs s'
 
 /-- `for i, x := range xs { body }` -/
-def forEach {α ρ σ : Type} (xs : List α) (f : Int → α → σ → Step ρ σ) (s : σ) : Step ρ σ :=
+def forEach {α ρ σ : Type} (xs : List α) (f : Int → α → σ → Step ρ σ) (s : σ) : Done ρ σ :=
   forEachAux f 0 xs s
 
-def forRangeAux {ρ σ : Type} (f : Int → σ → Step ρ σ) : Nat → Int → σ → Step ρ σ
-  | 0, _, s => .next s
+def forRangeAux {ρ σ : Type} (f : Int → σ → Step ρ σ) : Nat → Int → σ → Done ρ σ
+  | 0, _, s => .fin s
   | k + 1, i, s =>
     match f i s with
     | .ret v => .ret v
+    | .brk s' => .fin s'
     | .next s' => forRangeAux f k (i + 1) s'
 
 /-- `for i := lo; i < hi; i++ { body }` where the body assigns neither `i` nor anything `hi` mentions -/
-def forRange {ρ σ : Type} (lo hi : Int) (f : Int → σ → Step ρ σ) (s : σ) : Step ρ σ :=
+def forRange {ρ σ : Type} (lo hi : Int) (f : Int → σ → Step ρ σ) (s : σ) : Done ρ σ :=
   forRangeAux f (hi - lo).toNat lo s
+
+/-! ### float64, ideal: the translated code only forms products, powers and minima of integers; they are computed
+exactly (`F64 = Int`). This is the Go result whenever every intermediate value is below 2^53; rounding above that
+is not modelled (DESIGN.md 10 and 12.9). `math.Pow` with a negative exponent is outside the model (0). -/
+
+abbrev F64 := Int
+def F64.ofInt (x : Int) : F64 := x
+def F64.toInt (x : F64) : Int := x
+def math_Min (a b : F64) : F64 := if a ≤ b then a else b
+def math_Max (a b : F64) : F64 := if a ≤ b then b else a
+def math_Pow (a b : F64) : F64 := if b < 0 then 0 else a ^ b.toNat
+def math_Trunc (a : F64) : F64 := a
 
 /-! ### package strings (over code points) -/
 
